@@ -67,3 +67,17 @@ var round10Explanations = map[string]string{
 	"C19": " (R13) every field of v2.ClusterManagerConfigJson other than the cluster lists is stored from the same field of the argument in SetMosnConfig (into the rebuilt section or a same-named field of the stored config).",
 	"C20": " (R6) every []v2.ExtendConfig arm of getMOSNConfigRedacted and the ExtendConfigs field of redactedCopy's result take the result of a function from which a \"private_key\" key comparison and a placeholder store are reachable. (R3) a write through a tree handed in as a parameter is lifted to the call sites; a local interface value filled only by encoding/json is fresh.",
 }
+
+// Clauses added with the second wave of repairs (round 11).
+var round11bExplanations = map[string]string{
+	"C01": " (R14) the store of Response.SkipBody in the HTTP/1 client loop lies behind IsHead() of the stream's own request. (R15) every phi edge forcing the HTTP/2 content length to \"0\" is guarded by Method == \"HEAD\" being false. (R16) along edges consistent with messageType == ONEWAY decodeMessage reaches the store of EventRequest; Frame.GetStreamType can return api.RequestOneWay.",
+	"C04": " (R15) the insertion into the inner map of the key/value route index lies behind the miss edge of a comma-ok lookup of that map.",
+	"C07": " (B2d, wave 2) ctxManager.Next() lies on every way from handleFrame and from handleError back to Decode.",
+	"C08": " (B12) every invoke on streamConn.serverCallbacks in the frame handlers is dominated by a non-nil test. (B13) along edges consistent with status == PACKAGE_ERROR no (nil,nil) return of tars Decode is reachable. (B6) behind handleError the loop goes on only through an edge that proves Len() decreased since before this Decode.",
+	"C10": " (ONEWAY) cleanStream's resetStream call is not dominated by oneway == false. (OVF counter-step-exact) every path of resource.Increase/Decrease moves the counter by one, no exception for max == 0. (WINDOW) in NewStream of the three xprotocol pools codecClient.NewStream and AddEventListener run under one uninterrupted hold of clientMux/streamMux.",
+	"C11": " (O16) the processHeaders return that depends on inGoAway also lies behind getStream(id) == nil. (O17) every (*net.UnixListener).File() in pkg/network is dominated by SetUnlinkOnClose(false) on the same listener. (O18) a pool's Shutdown calls a client method from which a Lock of clientMux is reachable only with clientMux released. (O19) the counter read by activeStreamSize does not come from a pkg/metrics constructor that can return the no-op metrics.",
+	"C13": " (R16) the manager returned by NewTLSClientContextManager reaches clusterInfo.tlsMng only over edges with a nil error. (R17) match keys built from CommonName, DNSNames and serverName pass strings.ToLower. (R18) every hand-back of the untouched TCP connection by serverContextManager.Conn lies behind inspector or len(providers) == 0 (two-atom path search).",
+	"C14": " (R10) before the first filter invocation the cursor is reset under receiverFiltersPhase[cursor] != phase. (R11) along edges consistent with status Stop/termination no store to the cursor is reachable after the status handler call. (R5, restated) per status value over status-consistent edges: Stop/termination reach a return only behind a reset, the re-run statuses reach one without.",
+	"C17": " (R18) the store of regexRewrite is not guarded by len(pattern) > k with k >= 1.",
+	"C20": " (R6, static resources) redactedMosnConfig replaces RawStaticResources by the result of a redactor. (R7) a redaction placeholder is mentioned by some function reachable from conv.EnvoyConfigDump.",
+}
